@@ -95,10 +95,20 @@ LFinal ==
     /\ Ev.len = Len(queue)
     /\ UNCHANGED <<queue, dup, closed, cancelled, ph>>
 
-Lin == \E g \in Gs : LinInsertCheck(g) \/ LinInsertDo(g) \/ LinNext(g) \/ LinClose(g) \/ LinCancel(g)
+(* An effect can always be postponed past somebody else's invocation: only  *)
+(* the gaps before a "ret" (or the final marker) need to be considered.      *)
+BeforeRet ==
+    /\ l <= Len(Trace)
+    /\ \/ Trace[l].ev = "final"
+       \/ Trace[l].ev = "ret" /\ ph[Trace[l].g].phase \in {"inv", "checked"}
+Lin == BeforeRet /\ \E g \in Gs : LinInsertCheck(g) \/ LinInsertDo(g) \/ LinNext(g) \/ LinClose(g) \/ LinCancel(g)
 LNext == (LReset \/ LInv \/ LRet \/ LFinal \/ Lin) /\ UNCHANGED aux
 LSpec == LInit /\ [][LNext]_lvars
 
+(* Reaching the end of the trace is reported as a violation of NotDone so   *)
+(* that TLC stops at once (depth-first queue): the runner reads that as      *)
+(* "accepted".                                                               *)
+NotDone == l <= Len(Trace)
 Track == IF l > TLCGet(1) THEN TLCSet(1, l) ELSE TRUE
 TraceAccepted ==
     /\ PrintT(<<"HWM", TLCGet(1) - 1, Len(Trace)>>)
